@@ -771,6 +771,11 @@ impl BuildJob<'_> {
                     return Ok(());
                 }
                 sf.add_dep(ptx, state::DepMode::Modified, state::always_filename())?;
+                // For the rest of THIS run the target is as good as it gets: whoever asks for
+                // it again finds it checked.  (Without this every further request in the run
+                // found the failed dependency, called the target dirty and ran its script
+                // again -- once per dependent.)
+                sf.set_checked(ptx.state().env());
                 let mut always = state::File::from_name(ptx, state::always_filename(), true)?;
                 always.set_stamp(state::Stamp::MISSING);
                 always.set_changed(ptx.state().env());
